@@ -20,6 +20,8 @@ def configure(tier, seed):
 
 def body(ch):
     part, cul, q, ref = sc.build(ch)
+    if part == 'normaliser':
+        ch.prune()
     for rec, mt, ents in sc.calls(cul, q, ref):
         err = sc.overlap_error(ents)
         if err:
